@@ -157,7 +157,9 @@ AbsMarks(S, wr) ==
                         ELSE IF ~x.ok THEN [M EXCEPT !.good = FALSE]
                         ELSE IF o.path \notin DOMAIN M.F THEN M
                         ELSE IF M.F[o.path].kind # "reg" THEN M
-                        ELSE IF o.off < 0 THEN [M EXCEPT !.taint = @ \cup {o.path}]
+                        \* content or offset not made of whole units: not tracked
+                        ELSE IF o.off < 0 \/ M.F[o.path].data = <<"!!">>
+                             THEN [M EXCEPT !.taint = @ \cup {o.path}]
                         ELSE LET pos == IF o.app THEN Len(M.F[o.path].data) ELSE o.off
                              IN [M EXCEPT !.F[o.path].data = AbsPut(@, pos, x.tok),
                                           !.O[nm].off = pos + 1]
